@@ -16,6 +16,9 @@ What is proved, for every input triple (every projective representation):
   its affine coordinates are the image of the affine input under the rational map;
 * `iso11_identity`, `iso11_kernel`, `iso11_isZero_iff` (and `iso3_…`) — the identity and the kernel
   points (the poles of the map) are sent to the identity, and nothing else is;
+* `iso11_isZero_iff_ker` (and `iso3_…`) — the poles are the roots of the kernel polynomial `K`
+  (`XD = K²`, `YD = K³`; degree 5 with five rational roots for G1, `K = x + 6 − 6u` for G2);
+* `iso11_neg` (and `iso3_…`) — compatibility with the model's `negate`;
 * `iso11_homogeneous` (and `iso3_…`) — representation independence: rescaling the input by `l`
   rescales the output by an explicit power of `l`;
 * `iso11_onCurve` / `iso3_onCurve` — points of `E'` are sent to points of `E`, from the polynomial
@@ -28,7 +31,7 @@ preserving the identity is a homomorphism) is not in Mathlib, and a direct algeb
 for the degree-11 map is out of reach; this clause of C16 rests on differential testing only.
 
 The `iso3` theorems take the field structure of `Fq2` as an instance argument together with
-`Iso.Fq2FieldAgrees` (its `+ * 0 1` are the model's; `⟨rfl, rfl, rfl, rfl⟩` for a structure built
+`Iso.Fq2FieldAgrees` (its `+ * 0 1 -` are the model's; `⟨rfl, rfl, rfl, rfl, rfl⟩` for a structure built
 on the model's operations), because `Field Fq2` is established in another module.
 -/
 import PP.Proofs.Iso
@@ -101,6 +104,15 @@ theorem iso11_isZero_iff (p : Jac Fq) :
   rw [jac_isZero_iff, jac_isZero_iff]
   exact iso_z_eq_zero_iff iso11_shape p
 
+/-- the poles are the roots of the kernel polynomial `K` (`XD = K²`, `YD = K³`) -/
+theorem iso11_isZero_iff_ker (p : Jac Fq) :
+    (iso11 p).isZero = true ↔ p.isZero = true ∨ evalP iso11Ker (p.x / p.z ^ 2) = 0 := by
+  rw [iso11_isZero_iff, pole_iff iso11_xden_ker iso11_yden_ker]
+
+/-- compatibility with negation (the model's `negate`, all cases) -/
+theorem iso11_neg (p : Jac Fq) : iso11 p.neg = (iso11 p).neg :=
+  iso_neg iso11_shape p
+
 /-- representation independence: `(l²X, l³Y, lZ) ↦ (μ²X₃, μ³Y₃, μZ₃)` with `μ = l^55` -/
 theorem iso11_homogeneous (p : Jac Fq) (l : Fq) :
     iso11 ⟨l ^ 2 * p.x, l ^ 3 * p.y, l * p.z⟩ =
@@ -166,6 +178,19 @@ theorem iso3_isZero_iff (ag : Fq2FieldAgrees fld) (p : Jac Fq2) :
   fq2_align ag
   rw [jac_isZero_iff, jac_isZero_iff]
   exact iso_z_eq_zero_iff iso3_shape p
+
+theorem iso3_isZero_iff_ker (ag : Fq2FieldAgrees fld) (p : Jac Fq2) :
+    (iso3 p).isZero = true ↔ p.isZero = true ∨ evalP iso3Ker (p.x / p.z ^ 2) = 0 := by
+  have hx := iso3_xden_ker
+  have hy := iso3_yden_ker
+  rw [iso3_isZero_iff ag]
+  fq2_align ag
+  rw [pole_iff hx hy]
+
+theorem iso3_neg (ag : Fq2FieldAgrees fld) (p : Jac Fq2) : iso3 p.neg = (iso3 p).neg := by
+  simp only [iso3_eq]
+  fq2_align ag
+  exact iso_neg iso3_shape p
 
 /-- representation independence: `(l²X, l³Y, lZ) ↦ (μ²X₃, μ³Y₃, μZ₃)` with `μ = l^15` -/
 theorem iso3_homogeneous (ag : Fq2FieldAgrees fld) (p : Jac Fq2) (l : Fq2) :
